@@ -42,6 +42,9 @@ type c20Scenario struct {
 	SvcCalls []c20Call   `json:"service_worker"`
 	PoolCall []c20Call   `json:"pool_worker"`
 	Fetches  int         `json:"counter_fetches"`
+	// Fresh: no call is made before the workers start - their first events meet a listener, controller and
+	// allocator nobody has used yet (lazily initialised state)
+	Fresh bool `json:"fresh_process,omitempty"`
 }
 
 type c20Case struct {
@@ -157,6 +160,7 @@ func c20Scenarios() []c20Scenario {
 		{Name: "two-services-vs-pool-rename", Layout0: 0, Pre: []c20Call{svc("ns1/s0", 0)}, SvcCalls: []c20Call{svc("ns1/s1", 1), svc("ns1/s2", 2)}, PoolCall: []c20Call{{Kind: "pool", Lay: 1}}, Fetches: 2},
 		{Name: "sharing-services-vs-pool-shrink", Layout0: 0, Pre: []c20Call{svc("ns1/s0", 1)}, SvcCalls: []c20Call{svc("ns1/s1", 2), svc("ns1/s0", 3)}, PoolCall: []c20Call{{Kind: "pool", Lay: 2}}, Fetches: 2},
 		{Name: "delete-and-create-vs-pool-change", Layout0: 1, Pre: []c20Call{svc("ns1/s0", 0), svc("ns1/s1", 0)}, SvcCalls: []c20Call{svc("ns1/s0", -1), svc("ns1/s2", 0)}, PoolCall: []c20Call{{Kind: "pool", Lay: 0}}, Fetches: 2},
+		{Name: "first-events-of-a-fresh-process", Fresh: true, SvcCalls: []c20Call{svc("ns1/s1", 0), svc("ns1/s2", 1)}, PoolCall: []c20Call{{Kind: "pool", Lay: 0}, {Kind: "pool", Lay: 1}}, Fetches: 2},
 		{Name: "two-pool-events-vs-service", Layout0: 0, Pre: []c20Call{svc("ns1/s0", 0)}, SvcCalls: []c20Call{svc("ns1/s1", 0)}, PoolCall: []c20Call{{Kind: "pool", Lay: 1}, {Kind: "pool", Lay: 0}}, Fetches: 2},
 	}
 }
@@ -167,7 +171,9 @@ var c20Iter int
 
 func c20Run(sc c20Scenario) *c20Ctl {
 	h := newC20Ctl()
-	h.call(c20Call{Kind: "pool", Lay: sc.Layout0})
+	if !sc.Fresh {
+		h.call(c20Call{Kind: "pool", Lay: sc.Layout0})
+	}
 	for _, c := range sc.Pre {
 		h.call(c)
 	}
@@ -227,7 +233,9 @@ func c20Run(sc c20Scenario) *c20Ctl {
 // c20Serial replays the handler calls one at a time in the given lock-acquisition order.
 func c20Serial(sc c20Scenario, order []string) (string, error) {
 	h := newC20Ctl()
-	h.call(c20Call{Kind: "pool", Lay: sc.Layout0})
+	if !sc.Fresh {
+		h.call(c20Call{Kind: "pool", Lay: sc.Layout0})
+	}
 	for _, c := range sc.Pre {
 		h.call(c)
 	}
